@@ -6,6 +6,7 @@ import ast
 
 from sa.cfg import cfg_of
 from sa.facts import canon, result_sites
+from sa.guards import atoms as _atoms
 from sa.guards import GuardView, atom_of, names_in
 from sa.index import own_nodes
 from sa.report import Ctx
@@ -343,7 +344,101 @@ def check_grid(ctx: Ctx):
     ctx.note("astar_grid: an explicitly requested 'manhattan' heuristic with directions=8 (or cell costs below 1) is inadmissible and still labelled OPTIMAL; the property's quantifier ranges over grids and neighbour modes, not over heuristic names or cost maps - information only")
 
 
+def check_loop_and_exit_shapes(ctx: Ctx):
+    """Shape rules found missing by the statement-mutation probe: the search loops run on exactly (frontier non-empty,
+    budget left); the max_cost prune fires on exactly (limit given, popped cost above it); Bellman-Ford's early exit is
+    taken on exactly (a round without update) and a store into dist sets the flag; each verdict a solver can give has
+    its publication site; the path rebuilders collect every node they walk through."""
+    for mod, name, cont in (("bfs", "bfs", "queue"), ("bfs", "dfs", "stack"), ("dijkstra", "dijkstra", "heap"), ("a_star", "astar", "open_heap")):
+        f = ctx.func(mod, name)
+        wl = [n for n in own_nodes(f.node) if isinstance(n, ast.While) and "max_iter" in names_in(n.test)]
+        ctx.require(len(wl) == 1, f"budgeted search loop not found in {name}")
+        at = _atoms(wl[0].test, True)
+        front = [a for a in at if a.startswith("T:")]
+        ctx.ob("C11-O2", "R2 BUDGET-EXIT", f, f"{name}: the search loop runs exactly while the frontier has entries and the budget lasts", len(at) == 2 and len(front) == 1 and atom_of("iterations < max_iter") in at, f"`while {ast.unparse(wl[0].test)}`", node=wl[0])
+    for mod, name in (("dijkstra", "dijkstra"), ("a_star", "astar")):
+        f = ctx.func(mod, name)
+        cfg = cfg_of(f.node)
+        prunes = [n for n in own_nodes(f.node) if isinstance(n, ast.If) and "max_cost" in names_in(n.test)]
+        ctx.floor(f"max_cost tests in {name}", len(prunes), 1)
+        for pr in prunes:
+            at = _atoms(pr.test, True)
+            cost_atoms = [a for a in at if "max_cost" in a and a != "max_cost is not None"]
+            okp = "max_cost is not None" in at and len(at) == 2 and len(cost_atoms) == 1 and cost_atoms[0].startswith("max_cost < ") and len(pr.body) == 1 and isinstance(pr.body[0], ast.Continue) and not pr.orelse
+            ctx.ob("C11-O2", "R1 STATUS-GUARD", f, f"{name}: a popped node is left unexpanded for its cost exactly when a limit is given and its cost is above the limit", okp, f"`if {ast.unparse(pr.test)}` -> {ast.unparse(pr.body[0])[:30]}: any other reading of the limit prunes nodes inside it, and targets within max_cost come back INFEASIBLE", node=pr)
+    bf = ctx.func("bellman_ford", "bellman_ford")
+    bcfg = cfg_of(bf.node)
+    bgv = GuardView(bcfg)
+    brk = [n for n in own_nodes(bf.node) if isinstance(n, ast.Break)]
+    for b in brk:
+        at = {a for a in bgv.guard_atoms(bcfg.node_of(b), stable_only=False, after_loops=False) if not a.startswith("IN-LOOP")}
+        ctx.ob("C11-O4", "R2 early exit", bf, "the relaxation rounds end early exactly after a round without update", at == {"F:updated"}, f"{sorted(at)}", node=b)
+    ups = [n for n in own_nodes(bf.node) if isinstance(n, ast.Assign) and ast.unparse(n.targets[0]) == "updated"]
+    sets = [n for n in ups if ast.unparse(n.value) == "True"]
+    resets = [n for n in ups if ast.unparse(n.value) == "False"]
+    oku = len(sets) == 1 and len(resets) == 1
+    if oku:
+        blk = _enclosing_block(bf.node, sets[0])
+        oku = any(isinstance(x, ast.Assign) and ast.unparse(x.targets[0]).startswith("dist[") for x in blk)
+        rl = bcfg.node_of(resets[0]).loop
+        sl = bcfg.node_of(sets[0]).loop
+        oku = oku and rl is not None and sl is not None and sl.loop is rl
+    ctx.ob("C11-O4", "R16 PAIRED-EFFECTS", bf, "`updated` is cleared at the start of each round and raised together with every distance store of the round", oku, "a flag that stays down (or is never cleared) ends the rounds too early (or never early): distances are left unrelaxed, and the detection pass then reports a negative cycle that does not exist", node=sets[0] if sets else bf.node)
+    WANT = {
+        ("bellman_ford", "bellman_ford"): {"UNBOUNDED": 1, "INFEASIBLE": 1, "OPTIMAL": 2},
+        ("floyd_warshall", "floyd_warshall"): {"UNBOUNDED": 1, "OPTIMAL": 1},
+        ("bfs", "bfs"): {"OPTIMAL": 2, "MAX_ITER": 2, "INFEASIBLE": 1},
+        ("bfs", "dfs"): {"FEASIBLE": 1, "MAX_ITER": 2, "INFEASIBLE": 1, "OPTIMAL": 1},
+        ("dijkstra", "dijkstra"): {"OPTIMAL": 1, "MAX_ITER": 1, "INFEASIBLE": 1},
+        ("a_star", "astar"): {"MAX_ITER": 1, "INFEASIBLE": 1},
+    }
+    for (mod, name), want in WANT.items():
+        f = ctx.func(mod, name)
+        have: dict = {}
+        for s_ in result_sites(f):
+            for st in s_.statuses:
+                have[st] = have.get(st, 0) + 1
+        short = {k: (have.get(k, 0), v) for k, v in want.items() if have.get(k, 0) < v}
+        ctx.ob("C11-O2", "R3 STATUS-USE", f, f"{name} has a publication site for every verdict it can owe ({', '.join(sorted(want))})", not short, f"(found, expected) {short}: a verdict without a site is never given - a negative cycle, an unreachable target or an exhausted budget then ends in the next return or in None", node=f.node)
+    # heap entries are (cost, [secondary key,] tie-breaker, node): the tie-breaker must differ between entries, or equal costs fall
+    # through to comparing node labels (TypeError for labels without an order - the property allows any label)
+    for mod, name in (("dijkstra", "dijkstra"), ("a_star", "astar")):
+        f = ctx.func(mod, name)
+        cfg = cfg_of(f.node)
+        entries = [n for n in own_nodes(f.node) if isinstance(n, ast.Call) and ast.unparse(n.func) == "heappush" and isinstance(n.args[1], ast.Tuple) and len(n.args[1].elts) >= 3]
+        inits = [n for n in own_nodes(f.node) if isinstance(n, (ast.Assign, ast.AnnAssign)) and isinstance(n.value, ast.List) and len(n.value.elts) == 1 and isinstance(n.value.elts[0], ast.Tuple) and len(n.value.elts[0].elts) >= 3]
+        ctx.floor(f"heap entry constructions in {name}", len(entries) + len(inits), 2)
+        for e in entries + inits:
+            tup = e.args[1] if isinstance(e, ast.Call) else e.value.elts[0]
+            tb = ast.unparse(tup.elts[-2])
+            stn = cfg.stmt_node_containing(e) if isinstance(e, ast.Call) else cfg.node_of(e)
+            blk = _enclosing_block(f.node, stn.ast)
+            idx = next(i for i, x in enumerate(blk) if x is stn.ast)
+            oki = any(isinstance(x, ast.AugAssign) and ast.unparse(x.target) == tb and isinstance(x.op, ast.Add) for x in blk[idx + 1 :])
+            ctx.ob("C11-O3", "R16 PAIRED-EFFECTS", f, f"{name}: the tie-breaker `{tb}` grows after every heap entry that uses it", oki, f"`{ast.unparse(tup)}` is not followed by `{tb} += 1`", node=e)
+    de = ctx.func("dijkstra", "dijkstra_edges")
+    dcfg = cfg_of(de.node)
+    dgv = GuardView(dcfg)
+    apps = [n for n in own_nodes(de.node) if isinstance(n, ast.Call) and ast.unparse(n.func) == "adj[u].append"]
+    oka = len(apps) == 1 and ast.unparse(apps[0].args[0]) == "(v, w)"
+    if oka:
+        an = dcfg.stmt_node_containing(apps[0])
+        oka = an.loop is not None and an.loop.kind == "for" and ast.unparse(an.loop.ast.iter) == "edges" and ast.unparse(an.loop.ast.target) == "(u, v, w)" and not [b for b in dcfg.guards(an) if b.test.kind == "test"]
+    ctx.ob("C11-O1", "R12 NO-CARDINALITY-CUTOFF", de, "dijkstra_edges enters every input edge (u, v, w) into the successor list of u", bool(oka), "", node=apps[0] if apps else de.node)
+    dele = [n for n in own_nodes(de.node) if isinstance(n, ast.Return) and isinstance(n.value, ast.Call) and ast.unparse(n.value.func) == "dijkstra"]
+    okd = len(dele) == 1 and [ast.unparse(a) for a in dele[0].value.args] == ["source", "target", "lambda s: adj[s]"] and "target is not None" in dgv.guard_atoms(dcfg.node_of(dele[0]), stable_only=False)
+    ctx.ob("C11-O1", "R14 GATE", de, "with a target dijkstra_edges hands the query (source, target, successor lists) to dijkstra; without one it runs the all-distances search", okd, "", node=dele[0] if dele else de.node)
+    rp = ctx.func("utils.helpers", "reconstruct_path")
+    wl = [n for n in own_nodes(rp.node) if isinstance(n, ast.While)]
+    okr = len(wl) == 1 and [ast.unparse(x) for x in wl[0].body] == ["current = parent[current]", "path.append(current)"]
+    ctx.ob("C11-O7", "R29 EXACTLY-ONCE", rp, "every node the rebuild walks through is appended to the path, after the step to its parent", okr, "", node=rp.node)
+    ri = ctx.func("bellman_ford", "_reconstruct_indexed")
+    ti = ast.unparse(ri.node)
+    ctx.ob("C11-O7", "R29 EXACTLY-ONCE", ri, "the indexed rebuild walks parent links from the target until -1, with a length bound, and reverses", "path = [target]" in ti and "path.append(parent[path[-1]])" in ti and any(isinstance(w_, ast.While) and "parent[path[-1]] != -1" in ast.unparse(w_.test) and not isinstance(w_.test, ast.UnaryOp) for w_ in own_nodes(ri.node)) and ("reverse()" in ti or "[::-1]" in ti) and any(isinstance(r_, ast.Return) and r_.value is not None for r_ in own_nodes(ri.node)), "", node=ri.node)
+
+
 def run(ctx: Ctx):
+    check_loop_and_exit_shapes(ctx)
     best_first(ctx, ctx.func("dijkstra", "dijkstra"), astar=False)
     best_first(ctx, ctx.func("a_star", "astar"), astar=True)
     check_all_distances(ctx)
